@@ -178,6 +178,13 @@ _run_before_shared_store = run
 def run(ctx):
     shared_store(ctx)
     _run_before_shared_store(ctx)
+    # write -> read-back -> consumer is an ordering of three calls of the physical plan: it holds in a run only if the engine starts every
+    # call once and after all of its predecessors, under every schedule (a call released twice lets a consumer start before the read-back)
+    import engine_corr
+    ec = engine_corr.campaign(ctx, set())
+    for prop, key, what, replay in ec.found:
+        if (prop, key) in (("C04", "started-twice"), ("C01", "start-before-deps")):
+            ctx.fail("engine:" + key, what + " (in a physical plan: a consumer of a rebuilt stored value can start before the write / read-back it depends on)", replay)
 
 
 def shared_store(ctx):
